@@ -11,6 +11,7 @@ import CC.Proofs.FmtArith
 import CC.Proofs.FmtDigits
 import CC.Proofs.FmtTable
 import CC.Proofs.FmtExponent
+import CC.Proofs.FmtRender
 import CC.Gen.FmtGuard
 
 namespace CC
@@ -541,7 +542,8 @@ instance : Decidable (UnitOK u) := by unfold UnitOK; split <;> infer_instance
 /-- configurations the property quantifies over: precision `p ≥ 1`; with prefixes, an
 admissible SI table -/
 def CfgOK (c : SFCfg) : Prop :=
-  1 ≤ c.precision ∧ UnitOK c.unit ∧ (c.usePrefix = true → c.table.Admissible ∧ c.table.si = true)
+  1 ≤ c.precision ∧ UnitOK c.unit ∧
+    (c.usePrefix = true → c.table.Admissible ∧ c.table.si = true ∧ c.table.minKey % 3 = 0 ∧ c.table.maxKey % 3 = 0)
 
 /-- the region in which `FloatPrecision.exponent` takes its `'1.0'` branch -/
 def RoundsUpToOne (v : ℚ) (p : ℕ) : Prop := 1 - pow10 (-(p : ℤ)) / 2 ≤ |v| ∧ |v| < 1
@@ -593,7 +595,11 @@ def C18_real_partial_statement : Prop :=
     RealOK v c.precision (c.value3 v).maxExp c.unit (c.str v)
 
 example : CfgOK { unit := ['V'], precision := 3, usePrefix := true, table := print_real_call0.table } :=
-  ⟨by decide, by decide, fun _ => ⟨Table.admissible_sound (by decide), by decide⟩⟩
+  ⟨by decide, by decide, fun _ => ⟨Table.admissible_sound (by decide), by decide, by decide, by decide⟩⟩
+
+/-- **C18_tables_ends** — the smallest and the largest exponent of every prefix table are
+multiples of three (so that the clamped prefix is an SI letter the reader knows). -/
+theorem C18_tables_ends : all_tables.all (fun T => T.minKey % 3 == 0 && T.maxKey % 3 == 0) = true := by decide
 example : ExpOK (1234 / 10) 3 (exponent (1234 / 10) 3) := by
   left; constructor <;> (rw [show exponent (1234 / 10) 3 = 0 by decide +kernel]; simp [pow10_eq_zpow]; norm_num)
 example : RealOK (1234 / 10) 3 16 ['V'] (({ unit := ['V'], precision := 3 } : SFCfg).str (1234 / 10)) := by
@@ -1048,5 +1054,318 @@ theorem C18_saturate_domain (c : SFCfg) (v : ℚ) (hp : 1 ≤ c.precision) (hv0 
 
 example : ¬ RoundsUpToOne (1234 / 10) 3 := by
   unfold RoundsUpToOne; rw [abs_of_pos (by norm_num)]; norm_num
+
+end CC
+
+namespace CC
+open CC.Fmt CC.Gen.Fmt
+
+/-! ## the text reads back to `mantissa3 · 10^exponent3` -/
+
+theorem UnitOK.noNum {u : List Char} (h : UnitOK u) : NoNum u := by
+  cases u with
+  | nil => trivial
+  | cons c t => exact h
+
+/-- `C18_prefix_clamp` with the exponent of the printed prefix a multiple of three (tables whose
+smallest and largest exponent are multiples of three) -/
+theorem prefix_clamp3 (T : Table) (hT : T.Admissible) (hmin : T.minKey % 3 = 0) (hmax : T.maxKey % 3 = 0)
+    (e3 : ℤ) (h3 : e3 % 3 = 0) :
+    ∃ k : ℤ, k % 3 = 0 ∧ ((k = 0 ∧ sf_exp_prefix true T e3 = []) ∨ (k, sf_exp_prefix true T e3) ∈ T)
+      ∧ sf_rebase_exp true T e3 + k = e3 := by
+  obtain ⟨hne, hadm⟩ := hT
+  have hkeys : T.keys ≠ [] := by
+    intro h; apply hne; cases T with
+    | nil => rfl
+    | cons a t => simp [Table.keys] at h
+  obtain ⟨hmaxmem, hmaxle⟩ := listMax_spec hkeys
+  obtain ⟨hminmem, hminle⟩ := listMin_spec hkeys
+  change T.maxKey ∈ T.keys at hmaxmem
+  change T.minKey ∈ T.keys at hminmem
+  change ∀ x ∈ T.keys, x ≤ T.maxKey at hmaxle
+  change ∀ x ∈ T.keys, T.minKey ≤ x at hminle
+  unfold sf_exp_prefix sf_rebase_exp
+  simp only [Bool.not_true, Bool.false_eq_true, ↓reduceIte]
+  by_cases hgt : e3 > T.maxKey
+  · have hnot : T.has e3 = false := by
+      rw [Bool.eq_false_iff]; intro h
+      have := hmaxle e3 ((Table.has_iff T e3).mp h); omega
+    refine ⟨T.maxKey, hmax, Or.inr ?_, ?_⟩
+    · simp only [hgt, decide_true, ↓reduceIte]; exact Table.get_mem T _ hmaxmem
+    · simp [hnot, hgt]
+  · by_cases hlt : e3 < T.minKey
+    · have hnot : T.has e3 = false := by
+        rw [Bool.eq_false_iff]; intro h
+        have := hminle e3 ((Table.has_iff T e3).mp h); omega
+      refine ⟨T.minKey, hmin, Or.inr ?_, ?_⟩
+      · simp only [hgt, decide_false, Bool.false_eq_true, ↓reduceIte, hlt, decide_true]
+        exact Table.get_mem T _ hminmem
+      · simp [hnot, hgt, hlt]
+    · by_cases hhas : T.has e3 = true
+      · refine ⟨e3, h3, Or.inr ?_, ?_⟩
+        · simp only [hgt, decide_false, Bool.false_eq_true, ↓reduceIte, hlt, hhas]
+          exact Table.get_mem T _ ((Table.has_iff T e3).mp hhas)
+        · simp [hhas]
+      · have h0 : e3 = 0 := by
+          by_contra hne0
+          exact hhas (hadm e3 h3 (by omega) (by omega) hne0)
+        subst h0
+        have hgt' : ¬ (T.maxKey < 0) := by omega
+        have hlt' : ¬ (0 < T.minKey) := by omega
+        refine ⟨0, rfl, Or.inl ⟨rfl, ?_⟩, ?_⟩
+        · simp [hgt, hlt, hhas]
+        · simp [hgt', hlt']
+
+theorem exp_extension_eq (u : Bool) (T : Table) (e3 : ℤ) :
+    sf_exp_extension u T e3 = if sf_rebase_exp u T e3 = 0 then [] else 'e' :: intStr (sf_rebase_exp u T e3) := by
+  unfold sf_exp_extension
+  by_cases h : sf_rebase_exp u T e3 = 0 <;> simp [h]
+
+/-- the `post` decimals printed for the scaled mantissa are exact: `|mantissa3| · 10^post` is a
+natural number (`post = p - #digits ⌊|mantissa3|⌋`), for a `p`-digit mantissa or `±10^p` -/
+theorem mantissa3_integral (M p e : ℤ) (hp : 1 ≤ p) (hlo : pow10 (p - 1) ≤ |(M : ℚ)|) (hhi : |(M : ℚ)| ≤ pow10 p)
+    (post : ℕ) (hpost : ∀ r : ℕ, |f3_mantissa3 M e (f3_exponent3 p e)| < pow10 ((r : ℤ) + 1) → p - r - 1 ≤ (post : ℤ)) :
+    ∃ N : ℕ, |f3_mantissa3 M e (f3_exponent3 p e)| * ((10 ^ post : ℕ) : ℚ) = (N : ℚ) := by
+  have hform : |f3_mantissa3 M e (f3_exponent3 p e)| = |(M : ℚ)| * pow10 ((p + e - 1) % 3 - (p - 1)) := by
+    unfold f3_mantissa3
+    rw [exponent3_eq, abs_mul, abs_of_pos (pow10_pos _)]
+    congr 2; omega
+  obtain ⟨r, hr, hr3⟩ : ∃ r : ℕ, ((p + e - 1) % 3 = (r : ℤ)) ∧ r < 3 :=
+    ⟨((p + e - 1) % 3).toNat, by omega, by omega⟩
+  rw [hr] at hform
+  have hMnat : |(M : ℚ)| = ((M.natAbs : ℕ) : ℚ) := by
+    rw [← Int.cast_abs, Int.abs_eq_natAbs]; simp
+  rcases eq_or_lt_of_le hhi with heq | hlt
+  · -- carry: |m3| = 10^(r+1)
+    refine ⟨10 ^ (r + 1) * 10 ^ post, ?_⟩
+    rw [hform, heq, ← pow10_add, show p + ((r : ℤ) - (p - 1)) = ((r + 1 : ℕ) : ℤ) by push_cast; ring, pow10_natCast']
+    push_cast; ring
+  · -- p digits: post + (r - p + 1) ≥ 0
+    have hm3lt : |f3_mantissa3 M e (f3_exponent3 p e)| < pow10 ((r : ℤ) + 1) := by
+      rw [hform]
+      have := mul_lt_mul_of_pos_right hlt (pow10_pos ((r : ℤ) - (p - 1)))
+      rwa [← pow10_add, show p + ((r : ℤ) - (p - 1)) = (r : ℤ) + 1 by ring] at this
+    have hj := hpost r hm3lt
+    obtain ⟨j, hj'⟩ : ∃ j : ℕ, (j : ℤ) = (r : ℤ) - (p - 1) + post := ⟨((r : ℤ) - (p - 1) + post).toNat, by omega⟩
+    refine ⟨M.natAbs * 10 ^ j, ?_⟩
+    rw [hform, hMnat, mul_assoc, ← pow10_natCast' post, ← pow10_add, ← hj', pow10_natCast']
+    push_cast; ring
+
+end CC
+
+namespace CC
+open CC.Fmt CC.Gen.Fmt
+
+theorem str_of_not_inf (c : SFCfg) (v : ℚ) (h : (c.value3 v).isInf = false) :
+    c.str v = mantissaText (c.value3 v).mantissa3 c.precision
+      ++ (sf_exp_extension c.usePrefix c.table (c.value3 v).exponent3
+          ++ (sf_exp_prefix c.usePrefix c.table (c.value3 v).exponent3 ++ c.unit)) := by
+  unfold SFCfg.str
+  simp only [h, Bool.false_eq_true, ↓reduceIte, List.append_assoc]
+
+/-- **C18_render** — the verified round trip: for every configuration (`p ≥ 1`, a unit the
+reader can tell apart from a number, with prefixes an admissible SI table) and every value
+whose exponent stage is regular and that is not saturated, the reader applied to the text of
+`ScientificFloat.__str__` returns a number with exactly the mantissa `|mantissa3|`, the sign of
+`mantissa3`, and explicit exponent plus prefix denoting exactly `exponent3`. -/
+theorem C18_render : C18_render_statement := by
+  intro c v _hv0 hcfg hreg hinf
+  obtain ⟨hp, hunit, htab⟩ := hcfg
+  have hm3 : (c.value3 v).mantissa3
+      = f3_mantissa3 (fp_mantissa v (exponent v c.precision)) (exponent v c.precision)
+          (f3_exponent3 c.precision (exponent v c.precision)) := rfl
+  have he3 : (c.value3 v).exponent3 = f3_exponent3 c.precision (exponent v c.precision) := rfl
+  obtain ⟨dlo, dhi⟩ := mantissa_digits v c.precision (exponent v c.precision) hp hreg
+  obtain ⟨r1, _r2⟩ := C18_mantissa_range _ (c.precision : ℤ) (exponent v c.precision) dlo dhi
+  rw [← hm3] at r1
+  set m3 := (c.value3 v).mantissa3 with hm3def
+  set e3 := (c.value3 v).exponent3 with he3def
+  -- the printed decimals are exact
+  have hfl1 : (1 : ℤ) ≤ ⌊|m3|⌋ := Int.le_floor.mpr (by simpa using r1)
+  have hN : ∃ N : ℕ, |m3| * ((10 ^ (c.precision - numDigits ⌊|m3|⌋.toNat) : ℕ) : ℚ) = (N : ℚ) := by
+    have key := mantissa3_integral (fp_mantissa v (exponent v c.precision)) (c.precision : ℤ) (exponent v c.precision)
+      (by exact_mod_cast hp) dlo dhi (c.precision - numDigits ⌊|m3|⌋.toNat)
+    rw [← hm3] at key
+    apply key
+    intro r hr
+    have hip1 : 1 ≤ ⌊|m3|⌋.toNat := by omega
+    obtain ⟨a, _, _⟩ := numDigits_spec hip1
+    have hipq : ((⌊|m3|⌋.toNat : ℕ) : ℚ) ≤ |m3| := by
+      have : ((⌊|m3|⌋.toNat : ℕ) : ℤ) = ⌊|m3|⌋ := Int.toNat_of_nonneg (by omega)
+      have h2 : ((⌊|m3|⌋.toNat : ℕ) : ℚ) = ((⌊|m3|⌋ : ℤ) : ℚ) := by exact_mod_cast congrArg (fun z : ℤ => (z : ℚ)) this
+      rw [h2]; exact Int.floor_le _
+    have hlt : ⌊|m3|⌋.toNat < 10 ^ (r + 1) := by
+      have : ((⌊|m3|⌋.toNat : ℕ) : ℚ) < ((10 ^ (r + 1) : ℕ) : ℚ) := by
+        rw [← pow10_natCast']; push_cast; linarith
+      exact_mod_cast this
+    have hnd : numDigits ⌊|m3|⌋.toNat ≤ r + 1 := by
+      by_contra hgt
+      have : 10 ^ (r + 1) ≤ 10 ^ (numDigits ⌊|m3|⌋.toNat - 1) := Nat.pow_le_pow_right (by norm_num) (by omega)
+      omega
+    omega
+  obtain ⟨F, hF, htext, hmant⟩ := mantissaText_render m3 c.precision r1 hN
+  -- exponent extension and prefix
+  have h3 : e3 % 3 = 0 := by rw [he3]; exact C18_exp3 _ _
+  obtain ⟨k, hk, hsum⟩ : ∃ k : ℤ,
+      ((sf_exp_prefix c.usePrefix c.table e3 = [] ∧ k = 0) ∨ ∃ ch, sf_exp_prefix c.usePrefix c.table e3 = [ch] ∧ siExp ch = some k)
+      ∧ sf_rebase_exp c.usePrefix c.table e3 + k = e3 := by
+    cases hu : c.usePrefix with
+    | false => exact ⟨0, Or.inl ⟨rfl, rfl⟩, by simp [sf_rebase_exp]⟩
+    | true =>
+      obtain ⟨hadm, hsi, hmin, hmax⟩ := htab hu
+      obtain ⟨k, hk3, hmem, hsum⟩ := prefix_clamp3 c.table hadm hmin hmax e3 h3
+      refine ⟨k, ?_, hsum⟩
+      rcases hmem with ⟨hk0, hpf⟩ | hmem
+      · exact Or.inl ⟨hpf, hk0⟩
+      · obtain ⟨ch, hch, hsi'⟩ := Table.si_sound hsi hmem hk3
+        exact Or.inr ⟨ch, hch, hsi'⟩
+  have hstr := str_of_not_inf c v hinf
+  rw [← hm3def, ← he3def, htext, exp_extension_eq] at hstr
+  have hP := parseBack_render c.unit hunit.noNum (decide (m3 < 0)) ⌊|m3|⌋.toNat F
+    (c.precision - numDigits ⌊|m3|⌋.toNat) hF (sf_rebase_exp c.usePrefix c.table e3)
+    (sf_exp_prefix c.usePrefix c.table e3) k hk
+  rw [← hstr] at hP
+  refine ⟨_, hP, ?_, ?_, ?_⟩
+  · exact hsum
+  · unfold Parsed.mant
+    simp only
+    convert hmant using 3
+  · simp
+
+end CC
+
+namespace CC
+open CC.Fmt CC.Gen.Fmt
+
+/-! ## C18 at the level of the text -/
+
+theorem parseBack_inf_pos (u : List Char) : parseBack u ['∞'] = some (.inf false) := by
+  unfold parseBack; simp
+
+theorem parseBack_inf_neg (u : List Char) : parseBack u ['-', '∞'] = some (.inf true) := by
+  unfold parseBack; simp
+
+/-- **C18 for real values on the property domain** — for every configuration (`CfgOK`), every
+rational `v ≠ 0` with `|v| < 1e16` outside the rounds-up-to-one region: the text of
+`ScientificFloat` reads back (`parseBack`) to a number within half a unit of the `p`-th
+significant digit of `v`, with an exponent (explicit + prefix) that is a multiple of three, a
+mantissa in `[1, 1000]` and the sign of `v`; it is `∞`/`-∞` with the sign of `v` exactly beyond
+the range (`RealOK`, all clauses, no allowance). -/
+theorem C18_real_domain (c : SFCfg) (v : ℚ) (hv0 : v ≠ 0) (hcfg : CfgOK c) (hn : ¬ RoundsUpToOne v c.precision)
+    (hv16 : |v| < 10000000000000000) :
+    RealOK v c.precision (c.value3 v).maxExp c.unit (c.str v) := by
+  have hp := hcfg.1
+  have hok := C18_exponent_decade_domain v c.precision hp hv0 hv16
+  have hreg := hok.regular_of_not_roundsUp hn
+  obtain ⟨sat1, sat2⟩ := C18_saturate_domain c v hp hv0 hv16 hn
+  unfold RealOK
+  cases hinf : (c.value3 v).isInf with
+  | true =>
+    obtain ⟨hbr, htxt⟩ := sat2 hinf
+    unfold BeyondRounded at hbr
+    rw [htxt]
+    rcases lt_or_gt_of_ne hv0 with hneg | hpos
+    · rw [if_neg (not_lt.mpr (le_of_lt hneg)), parseBack_inf_neg]
+      simp [realFailures, hbr, hneg]
+    · rw [if_pos hpos, parseBack_inf_pos]
+      simp [realFailures, hbr, not_lt.mpr (le_of_lt hpos)]
+  | false =>
+    obtain ⟨q, hq, hexp, hmant, hneg⟩ := C18_render c v hv0 hcfg hreg hinf
+    rw [hq]
+    have hm3 : (c.value3 v).mantissa3
+        = ((fp_mantissa v (exponent v c.precision) : ℤ) : ℚ)
+            * pow10 (exponent v c.precision - f3_exponent3 c.precision (exponent v c.precision)) := rfl
+    have he3 : (c.value3 v).exponent3 = f3_exponent3 c.precision (exponent v c.precision) := rfl
+    -- clauses
+    have c1 : ¬ Beyond v c.precision (c.value3 v).maxExp := by
+      intro hb; have := sat1 hb; rw [hinf] at this; exact absurd this (by simp)
+    have c2 : q.exp % 3 = 0 := by rw [hexp, he3]; exact C18_exp3 _ _
+    obtain ⟨r1, r2⟩ := C18_mantissa_range_domain v c.precision hp hv0 hv16 hn
+    have c3 : 1 ≤ q.mant ∧ q.mant ≤ 1000 := by rw [hmant]; exact ⟨r1, r2⟩
+    -- the value denoted
+    have hval : q.value = ((fp_mantissa v (exponent v c.precision) : ℤ) : ℚ) * pow10 (exponent v c.precision) := by
+      unfold Parsed.value
+      rw [hmant, hexp, he3]
+      have hsplit : pow10 (exponent v c.precision)
+          = pow10 (exponent v c.precision - f3_exponent3 c.precision (exponent v c.precision))
+            * pow10 (f3_exponent3 c.precision (exponent v c.precision)) := by
+        rw [← pow10_add]; congr 1; ring
+      rw [hsplit, ← mul_assoc, ← hm3]
+      congr 1
+      by_cases hlt : (c.value3 v).mantissa3 < 0
+      · have : q.neg = true := hneg.mpr hlt
+        rw [this, abs_of_neg hlt]; simp
+      · have : q.neg = false := by
+          cases hq' : q.neg with
+          | false => rfl
+          | true => exact absurd (hneg.mp hq') hlt
+        rw [this, abs_of_nonneg (not_lt.mp hlt)]; simp
+    have c4 : AccurateTol 0 v c.precision q.value := by
+      unfold AccurateTol
+      rw [hval, zero_mul, add_zero]
+      exact C18_accuracy_domain v c.precision hp hv0 hv16
+    have c5 : q.neg = decide (v < 0) := by
+      obtain ⟨s1, s2⟩ := C18_mantissa_sign v c.precision (exponent v c.precision) hp hok
+      have hpos := pow10_pos (exponent v c.precision - f3_exponent3 c.precision (exponent v c.precision))
+      rcases lt_or_gt_of_ne hv0 with hvneg | hvpos
+      · have hM : ((fp_mantissa v (exponent v c.precision) : ℤ) : ℚ) < 0 := by exact_mod_cast s2 hvneg
+        have : (c.value3 v).mantissa3 < 0 := by rw [hm3]; exact mul_neg_of_neg_of_pos hM hpos
+        rw [hneg.mpr this]; simp [hvneg]
+      · have hM : (0 : ℚ) < ((fp_mantissa v (exponent v c.precision) : ℤ) : ℚ) := by exact_mod_cast s1 hvpos
+        have : ¬ (c.value3 v).mantissa3 < 0 := by rw [hm3]; exact not_lt.mpr (le_of_lt (mul_pos hM hpos))
+        have hq' : q.neg = false := by
+          cases hqq : q.neg with
+          | false => rfl
+          | true => exact absurd (hneg.mp hqq) this
+        rw [hq']; simp [not_lt.mpr (le_of_lt hvpos)]
+    simp [realFailures, c1, c2, c3, c4, c5]
+
+end CC
+
+namespace CC
+open CC.Fmt CC.Gen.Fmt
+
+/-- a value of the property domain outside the open-finding regions of `exponent` -/
+def InDomain (v : ℚ) (p : ℕ) : Prop := v ≠ 0 ∧ |v| < 10000000000000000 ∧ ¬ RoundsUpToOne v p
+
+theorem InDomain.magnitude {v : ℚ} {p : ℕ} (h : InDomain v p) : InDomain (CC.Fmt.qabs v) p := by
+  obtain ⟨h0, h16, hn⟩ := h
+  have e : |qabs v| = |v| := by rw [qabs_eq_abs, abs_abs]
+  refine ⟨by rw [qabs_eq_abs]; exact abs_ne_zero.mpr h0, by rw [e]; exact h16, ?_⟩
+  unfold RoundsUpToOne at hn ⊢; rw [e]; exact hn
+
+/-- **C18_complex** (text level, Cartesian) — for every `CfgOK` configuration and every complex
+value whose parts lie in the domain: the text is `sign ++ T_re ++ sign ++ j ++ T_im` (or the single
+part that is not suppressed), the signs are those of `re` and `im`, and each part text `T` reads
+back (`RealOK`) to the magnitude of its part within half a unit of the `p`-th digit, in
+engineering form.  Which part is suppressed is decided by `is_zero` (`C18_suppressed_small`;
+open finding 2 concerns that threshold, not the parts that are shown). -/
+theorem C18_complex_parts (c : SCCfg) (re im absV angle : ℚ) (hpol : c.polar = false) (hcfg : CfgOK c.toSFCfg)
+    (hre : InDomain re c.precision) (him : InDomain im c.precision) :
+    let sr : List Char := if 0 ≤ re then [] else if c.compact then ['-'] else ['-', ' ']
+    let si : List Char := if 0 ≤ im then (if c.compact then ['+'] else [' ', '+', ' '])
+                          else (if c.compact then ['-'] else [' ', '-', ' '])
+    let Tre := c.toSFCfg.str (qabs re)
+    let Tim := c.toSFCfg.str (qabs im)
+    (c.str re im absV angle = sr ++ Tre ∨ c.str re im absV angle = si ++ ['j'] ++ Tim
+      ∨ c.str re im absV angle = ['j'] ++ Tim ∨ c.str re im absV angle = sr ++ Tre ++ si ++ ['j'] ++ Tim)
+    ∧ RealOK (qabs re) c.precision (c.toSFCfg.value3 (qabs re)).maxExp c.unit Tre
+    ∧ RealOK (qabs im) c.precision (c.toSFCfg.value3 (qabs im)).maxExp c.unit Tim := by
+  intro sr si Tre Tim
+  have h1 := hre.magnitude
+  have h2 := him.magnitude
+  refine ⟨?_, C18_real_domain c.toSFCfg (qabs re) h1.1 hcfg h1.2.2 h1.2.1,
+    C18_real_domain c.toSFCfg (qabs im) h2.1 hcfg h2.2.2 h2.2.1⟩
+  rw [C18_complex c re im absV angle hpol]
+  simp only
+  by_cases hz1 : (c.toSFCfg.value3 (qabs im)).isZero = true
+  · rw [if_pos hz1]; exact Or.inl rfl
+  · rw [if_neg hz1]
+    by_cases hz2 : (c.toSFCfg.value3 (qabs re)).isZero = true
+    · rw [if_pos hz2]
+      by_cases hneg : im < 0
+      · rw [if_pos hneg]; exact Or.inr (Or.inl rfl)
+      · rw [if_neg hneg]; exact Or.inr (Or.inr (Or.inl rfl))
+    · rw [if_neg hz2]; exact Or.inr (Or.inr (Or.inr rfl))
 
 end CC
